@@ -50,6 +50,11 @@ where
             if S::IS_NATIVE_LAYOUT {
                 // Bulk read: memory layout matches T, single memcpy from mmap.
                 let reader = self.create_reader();
+                #[cfg(anydb_verif)]
+                rawdb::verif_tap::emit(rawdb::verif_tap::Event::PtrRead {
+                    addr: (reader.prefixed(HEADER_OFFSET).as_ptr() as usize).wrapping_add(from * Self::SIZE_OF_T),
+                    len: (stored_to - from) * Self::SIZE_OF_T,
+                });
                 let src = unsafe {
                     std::slice::from_raw_parts(
                         reader
